@@ -158,6 +158,141 @@ func c11(c *Ctx) {
 		}
 	}
 	c.RunCases(cases)
+	c11Commands(c)
+}
+
+// c11Commands: the property is about Privmsg / Notice / Action / Ctcp / CtcpReply, not only about the helper they
+// share: each is called on a real Conn (outgoing queue captured) with targets of 1..700 bytes (single names, long
+// recipient lists), every interesting SplitLen and texts around and far beyond it; the queued lines are compared
+// with the model's `exec` (for which `privmsg_lines` / `ctcp_lines` prove: one line per piece of splitMessage of the
+// text at cfg.SplitLen, same target) and the payloads are handed to the split Spec.
+func c11Commands(c *Ctx) {
+	var cases []Case
+	methods := []cmdSpec{{"Privmsg", "bb", "Privmsg"}, {"Notice", "bb", "Notice"}, {"Privmsgln", "bb", "Privmsg"}, {"Action", "bb", "Action"},
+		{"Ctcp", "bbl", "Ctcp"}, {"CtcpReply", "bbl", "CtcpReply"}}
+	for i := 0; i < c.Pick(1500, 15000); i++ {
+		m := methods[c.R.N(len(methods))]
+		n := c11Lens[c.R.N(len(c11Lens))]
+		e := n
+		if e < 13 {
+			e = 450
+		}
+		var target string
+		switch c.R.N(5) {
+		case 0:
+			target = "#" + c.R.Bytes(c.R.Range(1, 20), "abcXYZ-_")
+		case 1: // a long recipient list
+			for len(target) < c.R.Range(60, 700) {
+				target += c.R.Bytes(c.R.Range(3, 9), "abcdefgh") + ","
+			}
+		case 2:
+			target = c.R.Bytes(c.R.Range(480, 520), "n")
+		default:
+			target = c.R.Bytes(c.R.Range(1, 12), "abc#&")
+		}
+		text := c11Text(c.R, []int{0, 1, e - 1, e, e + 1, 2*e + 3, c.R.N(4 * e)}[c.R.N(7)])
+		cfg := client.NewConfig("me")
+		cfg.SplitLen = n
+		conn := client.Client(cfg)
+		a := []string{target, text}
+		var v []string
+		enc := []string{drv.H(target), drv.H(text)}
+		up := "-"
+		if m.kinds == "bbl" {
+			verb := c.R.Pick("PING", "version", "x")
+			a = []string{target, verb}
+			for _, w := range strings.Split(text, " ") {
+				v = append(v, w)
+			}
+			if text == "" {
+				v = nil
+			}
+			enc = []string{drv.H(target), drv.H(verb), drv.L(v)}
+			up = drv.H(strings.ToUpper(verb))
+		}
+		var lines []string
+		bad := ""
+		done := make(chan struct{})
+		go func() {
+			defer close(done)
+			defer func() {
+				if r := recover(); r != nil {
+					bad = fmt.Sprint("PANIC: ", r)
+				}
+			}()
+			lines = client.VerifCapture(conn, func() { callCmd(conn, m.name, a, v) })
+		}()
+		select {
+		case <-done:
+		case <-time.After(5 * time.Second):
+			bad = "DID NOT TERMINATE within 5s"
+		}
+		impl := drv.L(lines)
+		if bad != "" {
+			impl = bad
+		}
+		tag := ""
+		if len(lines) > 1 {
+			tag = m.name + "/multi"
+			if len(target) > 450 {
+				tag += "/long-target"
+			}
+		}
+		argstr := strings.Join(enc, " ")
+		// the pieces the command put on the wire, unwrapped, judged by the split Spec against the configured SplitLen
+		var spec []string
+		if bad == "" {
+			verb := "PRIVMSG"
+			if m.model == "Notice" || m.model == "CtcpReply" {
+				verb = "NOTICE"
+			}
+			prefix := verb + " " + target + " :"
+			full := text
+			open, shut := "", ""
+			switch m.model {
+			case "Action":
+				open, shut = "\x01ACTION", "\x01"
+			case "Ctcp", "CtcpReply":
+				open, shut = "\x01"+strings.ToUpper(a[1]), "\x01"
+				full = strings.Join(v, " ")
+			}
+			var pieces []string
+			okShape := true
+			for _, l := range lines {
+				if !strings.HasPrefix(l, prefix+open) || !strings.HasSuffix(l, shut) || len(l) < len(prefix+open+shut) {
+					okShape = false
+					break
+				}
+				pc := l[len(prefix+open) : len(l)-len(shut)]
+				if open != "" {
+					if pc != "" && !strings.HasPrefix(pc, " ") {
+						okShape = false
+						break
+					}
+					pc = strings.TrimPrefix(pc, " ")
+				}
+				pieces = append(pieces, pc)
+			}
+			if okShape {
+				spec = []string{"spec11 " + itoa(n) + " " + drv.H(full) + " " + drv.L(pieces)}
+			} else {
+				spec = []string{"spec11 " + itoa(n) + " " + drv.H(full) + " _"} // a line without the fixed prefix / wrapper: not a split of the text
+			}
+		}
+		cases = append(cases, Case{
+			Spec:   spec,
+			Desc:   fmt.Sprintf("%s(target of %d bytes, text of %d bytes %q) SplitLen=%d -> %d lines", m.name, len(target), len(text), trunc(text, 30), n, len(lines)),
+			Reqs:   []string{fmt.Sprintf("cmd %d %s %s %s %s", n, drv.H(cfg.QuitMessage), up, m.model, argstr)},
+			Impl:   []string{impl},
+			Tag:    tag,
+			Key:    fmt.Sprintf("%s|%d|%s", m.name, n, argstr),
+			Replay: map[string]interface{}{"op": "command", "method": m.name, "target_hex": drv.H(target), "text_hex": drv.H(text), "splitlen": n, "impl_lines_hex": impl},
+		})
+		if bad != "" && strings.HasPrefix(bad, "DID NOT") {
+			break
+		}
+	}
+	c.RunCases(cases)
 }
 
 func rep(s string, n int) string {
